@@ -234,6 +234,30 @@ def run(ctx: Ctx) -> None:
                 n_gc += 1
                 if not ok:
                     ctx.violation(f"C05:{op}:{cname}:finite-differences", "constrained input gradients disagree with finite differences", key)
+    # the fixed-constraint residual ops: the gradient at x is the true derivative of what is computed, for tau != 1 too,
+    # through residual_apply (tau by position and by keyword) and through split / f / add
+    for ri in range(6 if quick else 60):
+        tau = math.exp(rng.uniform(math.log(0.05), math.log(20.0)))
+        form = ("apply-pos", "apply-kw", "split-add")[ri % 3]
+        key = {"op": "residual", "tau": tau, "form": form}
+        ctx.count({"gradcheck": key}, bucket="gradcheck")
+        wr = torch.randn(4, 4, dtype=torch.float64)
+        br = lambda z: torch.tanh(z @ wr)  # noqa: E731
+
+        def fr(a, tau=tau, form=form):
+            if form == "apply-pos":
+                return U.residual_apply(br, a, tau)
+            if form == "apply-kw":
+                return U.residual_apply(br, a, tau=tau)
+            res, skip = U.residual_split(a, tau)
+            return U.residual_add(br(res), skip, tau)
+
+        xr = torch.randn(3, 4, dtype=torch.float64, requires_grad=True)
+        with ctx.guard("C05:residual:gradcheck-call", key):
+            n_gc += 1
+            if not gradcheck(fr, (xr,), eps=1e-6, atol=1e-5, rtol=1e-4, raise_exception=False):
+                ctx.violation("C05:residual:finite-differences", "the input gradient of the residual layer disagrees with finite "
+                              "differences of the function it computes", key)
     # vacuity guard: unconstrained linear with fan_in != fan_out must FAIL gradcheck
     x = torch.randn(4, 3, dtype=torch.float64, requires_grad=True)
     w = torch.randn(7, 3, dtype=torch.float64)
